@@ -1,7 +1,7 @@
 (* C04 model driver: reads the case file, prints one line per case:
      <model observation> | <spec observation>
    Case line (integers):
-     P two ign incself mode seed ign2 resize
+     P two ign incself mode seed ign2 resize      (two: 0 all ranks one index-set object, 1 all two, >= 2 mixed: bit r of two-2)
      phase 1: for each rank:  ns (g li attr pub)*ns  nt (g li attr pub)*nt
      phase 2: the same (the sets after the resize; equal to phase 1 where a set is not resized)
      for each rank: nn (q)*nn     neighbour hints as passed to the constructor (mode 1; nn = 0 in ring mode)
@@ -30,8 +30,12 @@ let main_cases file =
     let toks = ref (List.filter (fun s -> s <> "") (String.split_on_char ' ' (String.trim line))) in
     let next () = match !toks with [] -> failwith "short case" | t :: r -> toks := r; int_of_string t in
     (try
-      let p = next () in let two = next () = 1 in let ign = next () = 1 in let incself = next () = 1 in
+      let p = next () in let twocode = next () in let ign = next () = 1 in let incself = next () = 1 in
       let mode = next () in let _seed = next () in let ign2 = next () = 1 in let resize = next () in
+      (* twocode: 0 = every rank one index-set object, 1 = every rank two, >= 2: mixed, bit r of (twocode-2) = rank r has two *)
+      let two = twocode <> 0 in
+      let mixed = twocode >= 2 in
+      let twos = List.init p (fun r -> if mixed then ((twocode - 2) lsr r) land 1 = 1 else two) in
       let rset () = let n = next () in List.init n (fun _ -> let g = next () in let li = next () in let a = next () in let pb = next () in
                        { c04_g = nat_of_int g; c04_li = nat_of_int li; c04_attr = nat_of_int a; c04_pub = (pb = 1) }) in
       let rdecomp () = List.init p (fun _ -> let s = rset () in let t = rset () in (s, t)) in
@@ -42,7 +46,8 @@ let main_cases file =
       let md = if mode = 0 then None else Some orders in
       let sorted = List.for_all (fun (s, t) -> c04_sortedb s && c04_sortedb t) (d1 @ d2) in
       if not sorted then print_endline "UNSORTED-CASE | UNSORTED-CASE" else begin
-      let buildf d ig = c04_build two ig incself d md in
+      let buildf d ig = if mixed then c04_build_mixed twos ig incself d md else c04_build two ig incself d md in
+      let specf ig d r = if mixed then c04_spec_rank_mixed ig twos incself d r else c04_spec_rank ig two incself d r in
       let one = Zpos XH in
       let w0 = c04_init two d1 one one in
       let pre = c04_is_synced w0 in
@@ -60,9 +65,9 @@ let main_cases file =
       (* spec: the set comprehension on the decomposition, and the resize history *)
       let dfin = if resize <> 0 then d2 else d1 in
       let spec = String.concat " ; " (List.init p (fun r ->
-        fmt (not (c04_stale true [])) (not (c04_stale true ops1)) (rmap_str (c04_spec_rank ign two incself d1 (nat_of_int r)))
+        fmt (not (c04_stale true [])) (not (c04_stale true ops1)) (rmap_str (specf ign d1 (nat_of_int r)))
             (not (c04_stale true (ops1 @ ops2))) (not (c04_stale true (ops1 @ ops2 @ [C04_Rebuild ign2])))
-            (rmap_str (c04_spec_rank ign2 two incself dfin (nat_of_int r))) r)) in
+            (rmap_str (specf ign2 dfin (nat_of_int r))) r)) in
       print_string model; print_string " | "; print_endline spec end
     with Failure m -> print_endline ("BADCASE " ^ m ^ " | BADCASE"))
   done with End_of_file -> ())
